@@ -25,6 +25,8 @@ REPLAYS = os.path.join(VERIF, "replays")
 EVID = os.path.join(VERIF, "evidence")
 KNOWN = os.path.join(VERIF, "known_findings.json")
 NCPU = os.cpu_count() or 4
+# the tree under test; /repo unless VERIF_REPO points at a scratch worktree (used only when trying seeded changes)
+REPO = os.environ.get("VERIF_REPO", "/repo")
 
 GOENV = dict(os.environ, GOFLAGS="-mod=mod", GOPROXY="off", GOSUMDB="off", GOTOOLCHAIN="local",
              CGO_ENABLED=os.environ.get("CGO_ENABLED", "1"))
@@ -199,9 +201,16 @@ class Run:
         exe = os.path.join(self.dir, "drive_race" if race else "drive")
         if os.path.exists(exe):
             return exe
-        shutil.copy("/repo/go.sum", os.path.join(HARNESS, "go.sum"))
+        hdir = HARNESS
+        if REPO != "/repo":
+            hdir = os.path.join(self.dir, "harness")
+            if not os.path.exists(hdir):
+                shutil.copytree(HARNESS, hdir, ignore=shutil.ignore_patterns("drive", "drive_race"))
+                gm = open(os.path.join(hdir, "go.mod")).read().replace("=> /repo", "=> " + REPO)
+                open(os.path.join(hdir, "go.mod"), "w").write(gm)
+        shutil.copy(os.path.join(REPO, "go.sum"), os.path.join(hdir, "go.sum"))
         cmd = [GO, "build", "-tags", "verif"] + (["-race"] if race else []) + ["-o", exe, "./cmd/drive"]
-        code, out, wall = run(cmd, 900, cwd=HARNESS, env=GOENV)
+        code, out, wall = run(cmd, 900, cwd=hdir, env=GOENV)
         if code != 0:
             raise MachineryError("driver build failed (the tree under test does not compile with -tags verif?)\n" + out[-4000:])
         log("[build] driver%s in %.1fs" % (" (race)" if race else "", wall))
